@@ -273,6 +273,26 @@ class TinyDB(DataBase):
                     return True
             return False
 
+    def remove_by_id(self, index: int) -> bool:
+        """
+        Remove the document stored under a given index.
+
+        Parameters
+        ----------
+        index : int
+            Index (doc_id) of the document to be removed.
+
+        Returns
+        -------
+        bool
+            Indicates whether a document with that index existed and has been removed.
+        """
+        with self._lock:
+            if not self.database.contains(doc_id=index):
+                return False
+            self.database.remove(doc_ids=[index])
+            return True
+
     def all(self) -> tuple[dict, ...]:
         """
         Get all data from the database.
